@@ -208,6 +208,10 @@ End Skeletons.
    nu values of its successive use-keys along the algorithm's own path (evaluated by the
    harness with the real jax.random). *)
 Definition ls_grad (w : list Q) (batch : list example) (nu : Q) : list Q := batch_grad w batch nu.
+(* fedjax.grad(per_example_loss, l2_regularizer(reg)): mean example gradient + gradient of
+   reg * |w|^2, i.e. + 2*reg*w  (reg = 0: no regularizer) *)
+Definition ls_grad_reg (reg : Q) (w : list Q) (batch : list example) (nu : Q) : list Q :=
+  vred (vadd (batch_grad w batch nu) (vscale (2 * reg) w)).
 Definition ls_split3 (k : key) : key * Q * Q := (tl k, hd 0 k, 0).
 Definition ls_split_pair (k : key) : key * key := (k, k).   (* the case's stream IS the stream of split(k)[1] *)
 Definition ls_copt_init (p : list Q) : list Q := vzero (length p).
@@ -220,6 +224,7 @@ Record C12_case := mkC12 {
   q_copt : sgd;                              (* client / base optimizer *)
   q_sopt : sgd;                              (* server optimizer (fedprox, hypcluster, apfl) *)
   q_mu : Q;                                  (* proximal weight *)
+  q_reg : Q;                                 (* L2 regularizer weight (0 = none) *)
   q_slr : Q;                                 (* mime / mime_lite server learning rate *)
   q_init : list Q;
   q_pop : list (Z * list example);
@@ -243,6 +248,7 @@ Definition mk_mclient12 (c : C12_case) (ck : Z * list Q) : mclient (K := key) (B
 Definition C12_round (c : C12_case) (st : list Q * list Q) (r : list (Z * list Q)) : option (list Q * list Q) :=
   let co := q_copt c in
   let so := q_sopt c in
+  let ls_grad := ls_grad_reg (q_reg c) in
   let fa_like (res : option (list Q * list Q * list (Z * Q))) := option_map (fun x => (fst (fst x), snd (fst x))) res in
   match q_algo c with
   | AProx => fa_like (fedprox ls_grad split_key ls_copt_init (ls_copt_apply co) (ls_sopt so) (q_mu c) st (map (mk_client12 c) r))
